@@ -78,7 +78,9 @@ def rational_quadratic_spline(
     min_derivative=DEFAULT_MIN_DERIVATIVE,
     enable_identity_init=False,
 ):
-    if torch.min(inputs) < left or torch.max(inputs) > right:
+    # The inverse is defined on the output interval [bottom, top].
+    lower, upper = (bottom, top) if inverse else (left, right)
+    if torch.min(inputs) < lower or torch.max(inputs) > upper:
         raise InputOutsideDomain()
 
     num_bins = unnormalized_widths.shape[-1]
